@@ -116,6 +116,15 @@ async fn model_run<S: Store, F: std::future::Future<Output = S>>(label: &str, mk
                         if res.is_ok() { println!("WITNESS store[{label}]: batch {from}..={to} whose last header carries the hash of a stored header was accepted (seed {seed}, round {round})"); panic!("witness"); }
                         continue;
                     }
+                    // a batch with a hole (one inner header left out) is not a chain: must be rejected as a whole
+                    if !mixed && batch.len() >= 3 && rng.below(5) == 0 {
+                        let mut holed = batch.clone();
+                        let gone = 1 + rng.below(holed.len() as u64 - 2) as usize;
+                        let missing = holed.remove(gone).height();
+                        let res = store.insert(holed).await;
+                        if res.is_ok() { println!("WITNESS store[{label}]: a batch of heights {from}..={to} without height {missing} was accepted (seed {seed}, round {round})"); panic!("witness"); }
+                        continue;
+                    }
                     let res = store.insert(batch.clone()).await;
                     // legality per the model
                     let internally_ok = !mixed || batch.last().map(|b| chain[(b.height() - 1) as usize].hash() == b.hash()).unwrap_or(true);
